@@ -53,6 +53,7 @@ class Model(Hooks):
         self.cfg = cfg
         self.stats = stats
         self.viol = []
+        self.known = []     # hits of the listed finding R3 (search goes on)
         self.round = None
         self.unit = chip_unit(cfg)
         self.decisions = 0
@@ -99,6 +100,9 @@ class Model(Hooks):
             if amt != op.amount:
                 self.v('bring_in_amount', '', f'{op!r} expected {amt}')
         else:
+            if r.reopening_undecided():
+                # not judged (limit play): follow the engine
+                r.answered.pop(r.actor, None)
             if not r.accepts(op.amount):
                 self.v('illegal_raise_performed', '',
                        f'{op!r}: refusal reason {r.raise_refusal()},'
@@ -193,6 +197,9 @@ class Model(Hooks):
                        f' {r.bring_in_amount()}')
                 return
         # raise
+        if r.reopening_undecided():
+            self.flags.add('limit_short_all_in_not_judged')
+            return
         refusal = r.raise_refusal()
         lo = s.min_completion_betting_or_raising_to_amount
         hi = s.max_completion_betting_or_raising_to_amount
@@ -212,11 +219,37 @@ class Model(Hooks):
                 self.flags.add('completion_pending')
         else:
             self.flags.add('refusal:' + refusal)
-        if r.short and r.actor in r.acted:
-            ssum = sum(r.short)
+        if r.short_since_full and r.actor in r.answered:
+            grown = max(r.bets) - r.answered[r.actor]
             self.flags.add('short_all_in_sum_' + (
-                'below' if ssum < r.largest else
-                'equals' if ssum == r.largest else 'above') + '_full_raise')
+                'below' if grown < r.full_raise() else
+                'equals' if grown == r.full_raise() else 'above')
+                + '_full_raise')
+            if r.largest < r.street_min:
+                self.flags.add('short_all_in_is_first_wager')
+            if r.short_since_full >= 2 and grown < sum_short(r):
+                self.flags.add('acted_between_all_ins')
+        if refusal is not None and refusal.startswith('already acted') \
+                and sum_short(r) >= r.full_raise() \
+                and s.can_complete_bet_or_raise_to():
+            # Listed finding R3: the engine adds up the short all-ins since
+            # the last full wager for everybody, the rule books per player -
+            # somebody who answered one of them is offered a raise although
+            # the wager has grown by less than a full raise since.  Recorded
+            # under its own signature; the model then follows the engine so
+            # that the rest of the hand is still checked.
+            if not self.known:
+                self.known.append(V(
+                    self.prop, 'raise_acceptance',
+                    'reopened_by_sum_of_short_all_ins_for_player_who_'
+                    'answered_one_of_them',
+                    f'player {a} may raise although the wager grew by'
+                    f' {max(r.bets) - r.answered[a]} < {r.full_raise()} since'
+                    f' he acted (it grew by {sum_short(r)} since the last'
+                    f' full wager); {where}'))
+            self.flags.add('known_R3_cumulative_reopening')
+            r.answered.pop(a, None)
+            return
         for args in _amounts(s, self.unit):
             x = args[0] if args else None
             got = s.can_complete_bet_or_raise_to(*args)
@@ -227,10 +260,17 @@ class Model(Hooks):
                        f'can_complete_bet_or_raise_to({x})={got}, rules:'
                        f' {exp} (refusal {refusal}; bounds'
                        f' [{r.min_raise_to()}, {r.max_raise_to()}]); cap'
-                       f' {r.cap} count {r.count}; acted {sorted(r.acted)}'
-                       f' short {r.short} largest {r.largest}; {where}')
+                       f' {r.cap} count {r.count}; wager each player last'
+                       f' answered {dict(sorted(r.answered.items()))},'
+                       f' largest raise {r.largest}, street minimum'
+                       f' {r.street_min}; {where}')
                 return
         self.stats.count('probes', len(_amounts(s, self.unit)))
+
+
+def sum_short(r):
+    """how much the wager has grown since the last full wager"""
+    return max(r.bets) - r.full_level
 
 
 def budget(tier):
@@ -291,6 +331,44 @@ def short_all_in_scenario(draw):
     return {'config': cfg, 'tape': tape}
 
 
+@st.composite
+def acted_between_scenario(draw):
+    """Constructed region: A raises, B is all-in for a little more, C calls
+    that, D is all-in for a little more again, the blinds call.  The two
+    short all-ins together are below, at or above a full raise for A, but C
+    only ever faces the second one (WSOP live-action rule 129: "if the
+    resulting wager size to a participant qualifies as a raise")."""
+    from ..engine import PROFILES
+    game = draw(st.sampled_from(['NT', 'NT', 'PO']))
+    bb = draw(st.sampled_from([2, 4, 10]))
+    mult = draw(st.sampled_from([1, 1, 2, 3]))
+    full = bb * mult
+    raise_to = bb + full
+    s1 = draw(st.integers(1, max(1, full - 1)))
+    s2 = draw(st.integers(1, max(1, full - 1)))
+    deep = lambda: draw(st.sampled_from([40 * bb, 100 * bb]))  # noqa: E731
+    stacks = [deep(), deep(), deep(), raise_to + s1, deep(),
+              raise_to + s1 + s2]
+    extra = draw(st.integers(0, 2))       # callers behind D
+    stacks += [deep() for _ in range(extra)]
+    n = len(stacks)
+    profile = draw(st.sampled_from([0, 1, 3]))
+    wc = PROFILES[profile][0]
+    first = [wc, 0] if mult == 1 else [wc, 7, full - bb]
+    tape = first + [wc, 2] + [0] + [wc, 2] + [0] * (extra + 2)
+    tape += draw(st.lists(st.integers(0, 2 ** 16 - 1), max_size=40))
+    cfg = dict(
+        game=game, custom=None, n=n, mode=draw(st.sampled_from(['T', 'C'])),
+        autos=2047, boards=1, trim=False, antes=[0] * n,
+        blinds=[bb // 2, bb] + [0] * (n - 2), bring_in=0, sb=bb, bb=bb,
+        stacks=stacks, chip=draw(st.sampled_from(['int', 'int', 'frac'])),
+        rake=None, divmod='default',
+        deck_seed=draw(st.integers(0, 10 ** 6)), profile=profile,
+        strict=draw(st.booleans()), unknown=False, rig=None,
+    )
+    return {'config': cfg, 'tape': tape}
+
+
 def strategy(tier):
     common = dict(unknown=False, tape_size=120, rake=False, divmods=False,
                   boards=(1,))
@@ -301,6 +379,7 @@ def strategy(tier):
                   games=('FT', 'FO8', 'F7S', 'FR', 'F2L3D', 'FB', 'NT', 'PO'),
                   **common),
         short_all_in_scenario(),
+        acted_between_scenario(),
         # pot-limit with a rake: the pot a player may bet includes the chips
         # already raked off it (they are on the table until the hand ends)
         gen.cases(profiles=(1, 2, 5), games=('PO',), custom=True,
@@ -315,7 +394,7 @@ def check(case, stats):
     stats.count('outcome:' + str(res.outcome))
     if res.outcome == 'discard':
         return []
-    out = list(m.viol)
+    out = list(m.viol) or list(m.known)
     if res.outcome in ('crash', 'hang', 'runaway') and not out:
         out.append(V(ID, 'engine_crash', exc_key(res.exc),
                      f'{type(res.exc).__name__}: {res.exc}'))
@@ -333,3 +412,31 @@ def check(case, stats):
     stats.sample(dict(config=cfg, flags=sorted(m.flags),
                       operations=describe_ops(res.state, 50)), nontrivial)
     return out
+
+
+def demonstrate_known(k):
+    """True when the listed finding still reproduces on the current tree."""
+    import warnings
+    from pokerkit import Automation, NoLimitTexasHoldem
+    if not k.get('key', '').startswith('reopened_by_sum_of_short_all_ins'):
+        return False
+    with warnings.catch_warnings():
+        warnings.simplefilter('ignore')
+        try:
+            # blinds 1/2; A (seat 2) raises to 4, B all-in 5, C calls 5,
+            # D all-in 6, blinds call: A faces +2 (a full raise), C only +1
+            s = NoLimitTexasHoldem.create_state(
+                tuple(Automation), False, 0, (1, 2), 2,
+                (80, 80, 80, 5, 80, 6), 6)
+            s.complete_bet_or_raise_to(4)
+            s.complete_bet_or_raise_to(5)
+            s.check_or_call()
+            s.complete_bet_or_raise_to(6)
+            s.check_or_call()
+            s.check_or_call()
+            a_may = s.actor_index == 2 and s.can_complete_bet_or_raise_to()
+            s.check_or_call()
+            c_may = s.actor_index == 4 and s.can_complete_bet_or_raise_to()
+            return bool(a_may and c_may)
+        except Exception:  # noqa: BLE001
+            return False
